@@ -1436,7 +1436,7 @@ Qed.
 
 Lemma read_raw_or_cdata_spec inp s a s' : wf inp s -> read_raw_or_cdata inp s = (a, s') ->
   wf inp s' /\ raw_start s' = raw_start s /\ allow_cdata s' = allow_cdata s
-  /\ data_start s' = data_start s /\ data_end s' = raw_end s'.
+  /\ data_start s' = data_start s /\ data_end s' = raw_end s' /\ attribute s' = attribute s.
 Proof.
   intros W EQ. pose proof (wf_end _ _ W). pose proof (wf_start _ _ W). unfold read_raw_or_cdata in EQ.
   mstep EQ. mstep EQ.
@@ -1540,7 +1540,7 @@ Proof.
           * mstep Eb. auto.
         + auto.
         + destruct (err s0); alia.
-      - apply read_raw_or_cdata_spec in Eh0; [|exact W0]. destruct Eh0 as (Wr & Rr & Cr & Dr1 & Dr2).
+      - apply read_raw_or_cdata_spec in Eh0; [|exact W0]. destruct Eh0 as (Wr & Rr & Cr & Dr1 & Dr2 & _).
         wsplit; auto; congruence. }
     clear Eh0. destruct H2 as (Wt2 & Rt2 & Dt21 & Dt22). pose proof (wf_end _ _ Wt2). pose proof (wf_start _ _ Wt2).
     mstep Eh. mstep Eh.
